@@ -754,7 +754,7 @@ def run_check(prop_id, tier='quick', seed=0, budget_s=None, procs=None, replay_s
                     js['partial'] = True
                 for cex in r['violations']:
                     k = (cex['label'], key)
-                    if k in replayed and replayed[k] >= 2:
+                    if k in replayed and replayed[k] >= meta.get("replays_per_label", 8):
                         continue
                     replayed[k] = replayed.get(k, 0) + 1
                     try:
